@@ -171,6 +171,8 @@ static void switch_point(const char *op, const void *a)
 
 static void log_atomic(const char *op, const void *a, int size, int mo, long old, long arg, long res)
 {
+	if (cur < 0)
+		return; /* the driver's own calls (initialisation, snapshots) are not part of any context */
 	struct region *r = find(a);
 	vrt_ev_t *e = newev();
 	e->kind = 'A';
@@ -289,6 +291,8 @@ DEF_ATOMIC(64, a64)
 
 static void log_fence(const char *op, int mo)
 {
+	if (cur < 0)
+		return;
 	vrt_ev_t *e = newev();
 	e->kind = 'F';
 	e->op = op;
